@@ -4,6 +4,7 @@ package c18
 import (
 	"bytes"
 	"fmt"
+	"github.com/scrapli/scrapligo/driver/options"
 	"regexp"
 	"strings"
 	"testing"
@@ -185,7 +186,13 @@ var scripts = []map[string][]string{
 	{"go": {"ALPHA? "}, "1": {"beta? "}, "4": {"beta? "}, "2": {"done#"}, "3": {"done#"}},
 	{"go": {"nothing relevant "}},
 	{"go": {"beta? "}, "2": {"alpha? "}, "3": {"alpha? "}, "1": {"done#"}},
+	// long output (scripts 6 and 7 run with a prompt search depth of 48 bytes): a trigger followed by more than
+	// that in the same chunk, and a not-contains text that far back
+	{"go": {"alpha? " + filler + " "}, "1": {"beta? "}, "4": {"beta? "}, "2": {"done#"}, "3": {"done#"}},
+	{"go": {"alpha? " + filler + " beta? "}, "1": {"done#"}, "2": {"done#"}, "3": {"done#"}},
 }
+
+const filler = "0123456789 0123456789 0123456789 0123456789 0123456789 0123456789 0123456789"
 
 type fire struct {
 	idx int
@@ -281,7 +288,11 @@ func dlgScenario(list []int, si int, b sched.Bounds) sched.Scenario {
 			var err, setupErr error
 			var t0, t1 time.Duration
 			e.Go("client", func() {
-				g, nerr := generic.NewDriver("dev", cm.BaseOpts(tr, cm.Ms, time.Second, 0)...)
+				gopts := cm.BaseOpts(tr, cm.Ms, time.Second, 0)
+				if si >= 6 {
+					gopts = append(gopts, options.WithPromptSearchDepth(48))
+				}
+				g, nerr := generic.NewDriver("dev", gopts...)
 				if nerr != nil {
 					setupErr = nerr
 					return
@@ -442,7 +453,7 @@ func TestCheck(t *testing.T) {
 		ID:    "C18",
 		Level: "model_checking",
 		Rule: "predicate leg: contains in {none,ab,AB} x not-contains in {none,x,X} x regex in {nil, a.b, (?i)A.B} x case-insensitive on/off x every buffer over {a,b,A,B,x,X,.} up to length 5 (6 thorough), each observed through a real SendWithCallbacks session over a one-chunk device; " +
-			"dialogue leg: every ordered list of 1..3 distinct callbacks from 8 kinds (contains, not-contains, regex+complete, case-sensitive, once, no-reset+once, next-timeout) x 6 causal device scripts x every execution within the deviation bound (chunk cuts/holds, reader-vs-caller switches); oracle: reference implementation of the property run over the chunk sequence the driver actually consumed; distinct = distinct (cell, schedule, observation)",
+			"dialogue leg: every ordered list of 1..3 distinct callbacks from 8 kinds (contains, not-contains, regex+complete, case-sensitive, once, no-reset+once, next-timeout) x 8 causal device scripts (two with output longer than the lowered prompt search depth) x every execution within the deviation bound (chunk cuts/holds, reader-vs-caller switches); oracle: reference implementation of the property run over the chunk sequence the driver actually consumed; distinct = distinct (cell, schedule, observation)",
 		Assumptions: []string{"regexes are lower-case or carry their own (?i) flag (the property's own restriction)", "callback lists that would re-fire for ever (no reset, no once) are outside the family"},
 		Scenarios:   scenarios,
 		Budget:      map[string]time.Duration{"quick": 5 * time.Minute, "thorough": 40 * time.Minute},
